@@ -475,6 +475,10 @@ func (e *MetaCDC) Create(req *request.CreateRequest) (resp *request.CreateRespon
 		defer e.collectionNames.Unlock()
 		e.collectionNames.excludeData[uKey] = withoutOnce(e.collectionNames.excludeData[uKey], excludeCollectionNames...)
 		e.collectionNames.data[uKey] = withoutOnce(e.collectionNames.data[uKey], newCollectionNames...)
+		if req.ExtraInfo.EnableUserRole && newCollectionNames != nil {
+			// the request was only admitted because no other task of the target had the flag
+			e.collectionNames.extraInfos[uKey] = model.ExtraInfo{}
+		}
 		excludeCollectionNames, newCollectionNames = nil, nil // the revert may run twice
 	}
 
@@ -1501,6 +1505,9 @@ func (e *MetaCDC) delete(taskID string) error {
 	e.collectionNames.Lock()
 	e.collectionNames.excludeData[uKey] = withoutOnce(e.collectionNames.excludeData[uKey], info.ExcludeCollections...)
 	e.collectionNames.data[uKey] = withoutOnce(e.collectionNames.data[uKey], collectionNames...)
+	if info.ExtraInfo.EnableUserRole {
+		e.collectionNames.extraInfos[uKey] = model.ExtraInfo{}
+	}
 	e.collectionNames.Unlock()
 
 	e.cdcTasks.Lock()
